@@ -159,10 +159,12 @@ type cellSpec struct {
 	T    *tref  `json:"type,omitempty"`
 	K    int    `json:"k"` // class whose helper is used (dispatch cells), -1 otherwise
 	Pass int    `json:"pass,omitempty"` // dispatch cells run twice per script: classes ascending (0), then descending (1)
-	// Mk: how the object is made when its class is the anonymous one: 0 = by the factory Fab::mk()
-	// (one class expression nested in a method of an unrelated named class, full member set,
-	// evaluated once per cell), 1 = the class expression written out at the cell's own (top-level)
-	// site with only the members this cell needs
+	// Mk: how the object is made when its class is the anonymous one: 0 = by the factory function
+	// mk_anon() (one class expression, full member set, evaluated once per cell), 1 = the class
+	// expression written out at the cell's own (top-level) site with only the members this cell
+	// needs. (A factory that is a method of a helper class was tried and dropped: declared after the
+	// graph's classes it becomes the class the parser saw last and hides the stale-currentClass
+	// defect of parent:: at every later site.)
 	Mk int `json:"mk,omitempty"`
 }
 
@@ -524,9 +526,7 @@ func (g *graph) source(n names, throwable bool, cells []cellSpec) string {
 		sites()
 	}
 	if g.anon() >= 0 {
-		// the factory is a method of an unrelated named class: the class expression is nested in
-		// another class's body (self:: / parent:: / static:: inside it must still mean the anonymous class)
-		sb.WriteString("class Fab { public static function mk() { return " + g.anonExpr(n, throwable, nil) + "; } }\n")
+		sb.WriteString("function mk_anon() { return " + g.anonExpr(n, throwable, nil) + "; }\n")
 	}
 	sb.WriteString("function f_call($x) { return $x->zm(); }\n")
 	mk := func(c cellSpec) string {
@@ -534,7 +534,7 @@ func (g *graph) source(n names, throwable bool, cells []cellSpec) string {
 			if c.Mk == 1 {
 				return g.anonExpr(n, throwable, g.needOf(n, c))
 			}
-			return "Fab::mk()"
+			return "mk_anon()"
 		}
 		if throwable {
 			return fmt.Sprintf("new %s(\"msg\")", n.c(c.Obj))
